@@ -38,6 +38,7 @@ theorem ctx_unlocked_readers :
 theorem mutable_fields : (Gen.lockFields.filter (·.2.2 == "mutable")).map (fun x => (x.1, x.2.1)) =
     [("kvElection", "cancel"), ("kvElection", "ctx"), ("kvElection", "onDemote"), ("kvElection", "onPromote"),
      ("kvElection", "promoteStarted"), ("kvElection", "stopped"), ("kvElection", "stopping"), ("kvElection", "termCancel"),
+     ("kvElection", "windingDown"),
      ("disconnectHandler", "disconnectedAt"), ("disconnectHandler", "timer"),
      ("natsConnectionMonitor", "cancel"), ("natsConnectionMonitor", "ctx"), ("natsConnectionMonitor", "disconnectHandler"),
      ("natsConnectionMonitor", "reconnectHandler")] := by decide +kernel
